@@ -7,7 +7,8 @@ TMP = [None]
 _sp = {}
 DAY = 86400
 BOUNDS = ('C_NB', 'C_NOOA', 'SCD_NOOA', 'SCD_NB', 'SESS')
-KIND = {'C_NB': 'NB', 'SCD_NB': 'NB', 'C_NOOA': 'NOOA', 'SCD_NOOA': 'NOOA', 'SESS': 'NOOA', 'SCD2_NOOA': 'NOOA', 'SCD2_NB': 'NB',
+ADVICE_MARK = 'ADVICE-ATTRIBUTE-VALUE'
+KIND = {'ADV_NB': 'NB', 'ADV_NOOA': 'NOOA', 'C_NB': 'NB', 'SCD_NB': 'NB', 'C_NOOA': 'NOOA', 'SCD_NOOA': 'NOOA', 'SESS': 'NOOA', 'SCD2_NOOA': 'NOOA', 'SCD2_NB': 'NB',
         'SESS2': 'NOOA', 'SESS3': 'NOOA'}
 BASE_OFF = {'C_NB': -60, 'C_NOOA': 300, 'SCD_NOOA': 400, 'SCD_NB': -50, 'SESS': 500}
 
@@ -48,6 +49,10 @@ def shapes(thorough):
     out.append(('two-authn:second-expiring-earlier', {'C_NOOA': 600, 'SCD_NOOA': 600, 'SESS': 500, 'SESS2': 200}))
     out.append(('two-authn:only-second-bounded', {'C_NOOA': 600, 'SCD_NOOA': 600, 'SESS2': 200}))
     out.append(('three-authn:third-expiring-earlier', {'C_NOOA': 600, 'SCD_NOOA': 600, 'SESS': 500, 'SESS2': 400, 'SESS3': 200}))
+    # an assertion inside the accepted assertion's Advice with its own window: outside it, its attributes are not honoured
+    out.append(('advice:expiring-earlier', {'C_NOOA': 600, 'SCD_NOOA': 600, 'ADV_NOOA': 200}))
+    out.append(('advice:not-yet-valid', {'C_NOOA': 600, 'SCD_NOOA': 600, 'ADV_NB': 100, 'ADV_NOOA': 600}))
+    out.append(('advice:long-expired', {'C_NOOA': 600, 'SCD_NOOA': 600, 'ADV_NB': -3 * DAY, 'ADV_NOOA': -2 * DAY}))
     out.append(('inv-conditions', {'C_NB': 10, 'C_NOOA': 0, 'SCD_NOOA': 400}))
     out.append(('inv-scd', {'SCD_NB': 10, 'SCD_NOOA': 0, 'C_NOOA': 400}))
     return out
@@ -71,6 +76,9 @@ def build_doc(shape, style, soap=False):
         conf = [c2] + conf if shape.get('_scd2_first') else conf + [c2]
     a = dict(confirmations=conf, cond=True, cond_nb=shape.get('C_NB'), cond_nooa=shape.get('C_NOOA'),
              session_nooa=shape.get('SESS'), style=style)
+    if 'ADV_NOOA' in shape or 'ADV_NB' in shape:
+        a['advice'] = forge.assertion(T0, aid='ADV1', cond=True, cond_nb=shape.get('ADV_NB'), cond_nooa=shape.get('ADV_NOOA'), authn=False,
+                                      attrs=(('role', (ADVICE_MARK,)),), style=style)
     if 'SESS2' in shape:
         a['more_authn'] = [shape['SESS2']] + ([shape['SESS3']] if 'SESS3' in shape else [])
     if shape.get('_noaud'):
@@ -129,7 +137,7 @@ def judge(shape, style, slack, dt):
     rej = False
     spare = True
     for b, off in shape.items():
-        if b.startswith('_'):
+        if b.startswith('_') or b.startswith('ADV_'):
             continue
         v = off + FRAC[style]
         if KIND[b] == 'NOOA':
@@ -151,7 +159,7 @@ def judge(shape, style, slack, dt):
         rej = True
     if not (abs(dt) + s + 1 < DAY):
         spare = False
-    profile = (style in Z_LIKE and 'SCD_NOOA' in shape and 'SCD_NB' not in shape and 'SCD2_NB' not in shape and not shape.get('_noaud')
+    profile = ('ADV_NOOA' not in shape and 'ADV_NB' not in shape and style in Z_LIKE and 'SCD_NOOA' in shape and 'SCD_NB' not in shape and 'SCD2_NB' not in shape and not shape.get('_noaud')
                and 'SESS2' not in shape)
     acc = profile and spare and not rej
     exp = None
@@ -200,6 +208,10 @@ def evaluate_in_zone(cell):
             bad = 'rejected-although-every-bound-has-room:%s' % obs.get('exc')
         elif obs['accept'] and exp is not None and obs['identity']['not_on_or_after'] != exp:
             bad = 'session-expiry-handed-to-application-is-wrong'
+        elif obs['accept'] and ADVICE_MARK in repr(obs['identity'].get('ava')):
+            s_ = slack or 0
+            if ('ADV_NOOA' in shape and dt - s_ > shape['ADV_NOOA'] + 1) or ('ADV_NB' in shape and dt + s_ < shape['ADV_NB'] - 1):
+                bad = 'attributes-of-an-advice-assertion-honoured-outside-its-validity-window'
         out.append((dt, obs['accept'], obs.get('exc'), rej, acc, bad))
     env.Clock.set(env.BASE)
     return out
@@ -248,7 +260,7 @@ def run(ctx):
         'level': 'exploration',
         'coverage': {
             'evaluations': n, 'distinct_nontrivial': len(nontriv), 'exhaustive': True,
-            'rule': 'complete grid: %d document shapes (every subset of the five optional bounds; Conditions without any child element; two bearer confirmations with different windows in both orders; session-earlier-than-conditions; two and three AuthnStatements with the earliest session bound on a later one; wide bounds isolating IssueInstant; NotBefore>NotOnOrAfter inversions) x timestamp spellings (Z, fractions, no designator, numeric zones incl. half-hour and negative offsets) x allowance values x process time zone (UTC, UTC+5, UTC-5; thorough also +5:30 and a DST zone) x delivery (signed over HTTP-POST; unsigned over SOAP, where the handler runs with asynchop off) x placements of now (-2..+2 s around every edge shifted by the allowance, around +-1 day of IssueInstant, far values); non-trivial = cells where the oracle demands a verdict (reject-required or accept-required, 1 s dead zone around each edge)' % len(SHAPES),
+            'rule': 'complete grid: %d document shapes (every subset of the five optional bounds; Conditions without any child element; two bearer confirmations with different windows in both orders; session-earlier-than-conditions; two and three AuthnStatements with the earliest session bound on a later one; an Advice assertion with its own window (its attributes must not reach the application outside it); wide bounds isolating IssueInstant; NotBefore>NotOnOrAfter inversions) x timestamp spellings (Z, fractions, no designator, numeric zones incl. half-hour and negative offsets) x allowance values x process time zone (UTC, UTC+5, UTC-5; thorough also +5:30 and a DST zone) x delivery (signed over HTTP-POST; unsigned over SOAP, where the handler runs with asynchop off) x placements of now (-2..+2 s around every edge shifted by the allowance, around +-1 day of IssueInstant, far values); non-trivial = cells where the oracle demands a verdict (reject-required or accept-required, 1 s dead zone around each edge)' % len(SHAPES),
             'samples': [{'cell': list(cs[i0][:4]) + [cs[i0][5]], 'instants': cs[i0][4][:6], 'outcomes': [list(o) for o in res[i0][:3]]}],
             'accepted': n_acc, 'accept_required_cells': n_must_acc, 'reject_required_cells': n_must_rej,
             'distinct_outcomes': len(hist), 'outcome_histogram': hist,
